@@ -121,16 +121,25 @@ class Check(PropertyCheck):
                                          {"history_length": len(sub)}))
                     break
         # 3. racing threads in fresh processes (first use of the lazily initialised tables)
-        tlines = ["%d %s" % (i, hx(t)) for i, t in enumerate(texts[:120])]
+        # the first inputs are drawings whose grouping takes many passes (buses with 12..40 taps): shared counters,
+        # budgets or scratch state inside the merge loops would show when 16 threads work on them at once
+        heavy = [gen.bus(k) for k in (40, 24, 12, 40)] + [gen.comb(self.rng) for _ in range(4)]
+        ttexts = heavy + texts[:112]
+        hlines = ["h%d to_svg default %s" % (i, hx(t)) for i, t in enumerate(ttexts)]
+        ref = dict(ref)
+        href = run_process(["lib"], hlines)
+        for i in range(len(ttexts)):
+            ref["h%d" % i] = href.get("h%d" % i)
+        tlines = ["h%d %s" % (i, hx(t)) for i, t in enumerate(ttexts)]
         for T in ([2, 16] if self.tier == "quick" else [1, 2, 3, 4, 8, 12, 16]):
             for rep in range(self.scale(2, 6)):
                 o = run_process(["threads", str(T)], tlines)
                 for i in range(len(tlines)):
                     self.evaluations += 1
-                    a = o.get(str(i), "noanswer")
-                    if a == "differ" or a != ref.get(str(i)):
+                    a = o.get("h%d" % i, "noanswer")
+                    if a == "differ" or a != ref.get("h%d" % i):
                         fails.append(Failure("concurrent conversion (%d threads, first use racing) gives a different output" % T,
-                                             {"input": texts[i], "input_hex": hx(texts[i])}, {"answer": a[:40]}))
+                                             {"input": ttexts[i], "input_hex": hx(ttexts[i])}, {"answer": a[:40]}))
                         break
         self.stats["thread_counts"] = "2,16" if self.tier == "quick" else "1..16"
         return fails
